@@ -9,6 +9,7 @@ CONSTANTS
   ChunkPts = {}
   ResetChoices <- RepairedOnly
   TamperTags <- AllTags
+  CacheChoices = {"none"}
   Concurrent = TRUE
   RecordHist = FALSE
 INVARIANTS TypeOK Agreement SuccessSound MutualGating ReplayRejected FaultNeverSuccess NoFaultClean Completeness PoolAccounting PoolClean
